@@ -21,7 +21,9 @@ import RV.Base.Proto
   round g:
     nsof <term> <ns>         -> ok    the namespace id of an IRI term (table owned by the harness)
     bind <ns>                -> ok    NamespaceManager.bind before the reads
+    dgbase <ns>              -> ok    Dataset(default_graph_base=<the IRI of namespace ns>); `obs` prints it as a 4th part
     view <g>                 -> ok    the reads go through `ds.get_context(g)` (State.runView)
+    readv <g> <read…>        ->       ONE read through the view of <g> (e.g. `ds.default_graph.serialize(…)`)
     read turtle <base ns|-> | longturtle <canon> <base> | trig <base>
                                       base = the namespace the `base=` option makes relative (no getQName there)
     every `read …` answers the rendered skeleton output (`Out`), the harness compares the ones it can observe
@@ -112,6 +114,7 @@ def showState (s : State) : String :=
   " ".intercalate (s.quads.map (fun q => showNats [q.1.1, q.1.2.1, q.1.2.2] ++ "," ++ showG s q.2))
     ++ " | " ++ " ".intercalate (s.graphNames.map (showG s))
     ++ " | " ++ " ".intercalate (s.ns.map toString)
+    ++ " | " ++ (match s.dgBase with | none => "-" | some b => toString b)
 
 def showT (t : Triple) : String := showNats [t.1, t.2.1, t.2.2]
 
@@ -127,11 +130,11 @@ def showOut (s : State) : Out → String
   | .err => "E"
 
 def init? (cfg : String) : Option State :=
-  if cfg = "ds" ∨ cfg = "view" then some ⟨[], [], false, true, .dflt, []⟩
-  else if cfg = "dsu" then some ⟨[], [], true, true, .dflt, []⟩
-  else if cfg = "cg" then some ⟨[], [], true, false, .bnode 999, []⟩
-  else if cfg = "cgd" then some ⟨[], [], true, false, .dflt, []⟩
-  else if cfg = "g" then some ⟨[], [], false, false, .iri 999, []⟩
+  if cfg = "ds" ∨ cfg = "view" then some ⟨[], [], false, true, .dflt, [], none⟩
+  else if cfg = "dsu" then some ⟨[], [], true, true, .dflt, [], none⟩
+  else if cfg = "cg" then some ⟨[], [], true, false, .bnode 999, [], none⟩
+  else if cfg = "cgd" then some ⟨[], [], true, false, .dflt, [], none⟩
+  else if cfg = "g" then some ⟨[], [], false, false, .iri 999, [], none⟩
   else none
 
 def ctxArg (g : GName) (how : String) : Option CtxArg :=
@@ -188,12 +191,17 @@ def stepSt (d : D) (s : State) : List String → Option (State × String)
     | _, _, _, _ => none
   | ["reg", g] => (gname? s g).map (fun g => (s.register g, "ok"))
   | ["bind", n] => n.toNat?.map (fun n => (s.bindNs n, "ok"))
+  | ["dgbase", n] => n.toNat?.map (fun n => ({ s with dgBase := some n }, "ok"))   -- Dataset(default_graph_base=…)
   | ["foreign", g, a, b, c] =>
     match a.toNat?, b.toNat?, c.toNat?, gname? s g with
     | some a, some b, some c, some g => some (s.graphForeign g [(a, b, c)], "ok")
     | _, _, _, _ => none
   | ["obs"] => some (s, showState s)
   | "read" :: "jsonldbuggy" :: [] => some ((s.serializeJsonldBuggy).1, "ok")
+  | "readv" :: g :: rest =>          -- one read through `ds.get_context(g)` / the dataset's own default graph object
+    match gname? s g with
+    | none => none
+    | some g => (readOp? d (s.asView g) rest).map (fun r => ((s.runView g r).1, showOut s (s.runView g r).2))
   | "read" :: rest =>
     match d.view with
     | none => (readOp? d s rest).map (fun r => ((s.run r).1, showOut s (s.run r).2))
@@ -218,4 +226,4 @@ def step (d : D) : List String → D × String
     | some (s', o) => ({ d with st := s' }, o)
     | none => (d, "bad-op")
 
-def main : IO Unit := RV.Proto.run step (⟨⟨[], [], false, true, .dflt, []⟩, [], none⟩ : D)
+def main : IO Unit := RV.Proto.run step (⟨⟨[], [], false, true, .dflt, [], none⟩, [], none⟩ : D)
